@@ -21,10 +21,53 @@ struct Case {
     later_chunk_prefix: Option<Vec<u8>>,
 }
 
+/// prior states of the output path: absent, short content, 400 kB content, dangling symbolic link, symbolic link to a file
+const NSTATES: usize = 5;
 const PRIOR: &[u8] = b"PRECIOUS EXISTING CONTENT - must survive a failed command\n";
 
 fn s(x: &str) -> String {
     x.to_string()
+}
+
+/// Everything in a run directory (one level of sub-directories): name -> "file:<len>:<hash>", "link:<target>", "dir".
+/// Symbolic links are NOT followed, so a link that was replaced, removed or had its target created shows up.
+pub fn dir_snapshot(dir: &std::path::Path) -> std::collections::BTreeMap<String, String> {
+    fn walk(base: &std::path::Path, d: &std::path::Path, depth: usize, out: &mut std::collections::BTreeMap<String, String>) {
+        let rd = match std::fs::read_dir(d) {
+            Ok(r) => r,
+            Err(_) => return,
+        };
+        for e in rd.flatten() {
+            let p = e.path();
+            let name = p.strip_prefix(base).unwrap_or(&p).to_string_lossy().to_string();
+            let md = match std::fs::symlink_metadata(&p) {
+                Ok(m) => m,
+                Err(_) => continue,
+            };
+            let ft = md.file_type();
+            if ft.is_symlink() {
+                out.insert(name, format!("link:{}", std::fs::read_link(&p).map(|t| t.to_string_lossy().to_string()).unwrap_or_default()));
+            } else if ft.is_dir() {
+                out.insert(name, "dir".into());
+                if depth < 1 {
+                    walk(base, &p, depth + 1, out);
+                }
+            } else if ft.is_file() {
+                let bytes = std::fs::read(&p).unwrap_or_default();
+                let mut h: u64 = 0xcbf29ce484222325;
+                for b in &bytes {
+                    h ^= *b as u64;
+                    h = h.wrapping_mul(0x100000001b3);
+                }
+                out.insert(name, format!("file:{}:{:016x}:ino{}", bytes.len(), h, md.ino()));
+            } else {
+                out.insert(name, "other".into());
+            }
+        }
+    }
+    let mut out = std::collections::BTreeMap::new();
+    walk(dir, dir, 0, &mut out);
+    out
 }
 
 pub fn run(ctx: &Ctx) {
@@ -191,17 +234,18 @@ pub fn run(ctx: &Ctx) {
     out_names.push(format!("r\u{e9}sum\u{e9}-{}\u{2713}.bin", "x".repeat(29)));
     let name_rounds = ctx.tier.pick(4, out_names.len());
     let wd = WorkDir::new("c13");
-    let per_round = cases.len() * 3;
+    let per_round = cases.len() * NSTATES;
     let total = per_round * name_rounds;
-    ctx.note("matrix", json!({"cases": cases.len(), "prior_states": ["absent", "present with short known content", "present with 400 kB of known content"], "executions": total}));
+    ctx.note("matrix", json!({"cases": cases.len(), "prior_states": ["absent", "present with short known content", "present with 400 kB of known content", "dangling symbolic link (target absent)", "symbolic link to a file with known content"], "executions": total}));
     let wdp = &wd;
     par_for(total, crate::util::ncpu(), |jfull| {
         let (round, j) = (jfull / per_round, jfull % per_round);
         let out_name: &str = if round == 0 { "OUT" } else { &out_names[1 + (j + round * 7 + ctx.seed as usize) % (out_names.len() - 1)] };
-        let case = &cases[j / 3];
-        let present = j % 3 >= 1;
+        let case = &cases[j / NSTATES];
+        let state = j % NSTATES;
+        let present = state == 1 || state == 2;
         // third prior state: content LONGER than anything the command could write (a stale tail would show)
-        let long_prior: Vec<u8> = if j % 3 == 2 { (0..400_000u32).map(|i| (i % 251) as u8).collect() } else { PRIOR.to_vec() };
+        let long_prior: Vec<u8> = if state == 2 { (0..400_000u32).map(|i| (i % 251) as u8).collect() } else { PRIOR.to_vec() };
         let dir = wdp.path.join(format!("c{}", jfull));
         std::fs::create_dir_all(&dir).unwrap();
         for (name, bytes) in &case.files {
@@ -212,7 +256,20 @@ pub fn run(ctx: &Ctx) {
         let uses_out_as_input = case.cause.contains("input == output");
         if present || uses_out_as_input {
             std::fs::write(&out, &long_prior).unwrap();
+        } else if state == 3 {
+            // dangling link: the path "exists" only as a link; its target is absent (and must stay absent)
+            let _ = std::os::unix::fs::symlink("link-target-that-does-not-exist.bin", &out);
+        } else if state == 4 {
+            std::fs::write(dir.join("link-target.bin"), PRIOR).unwrap();
+            let _ = std::os::unix::fs::symlink("link-target.bin", &out);
         }
+        // stale siblings of the output path (as an interrupted earlier run of some tool could leave them): part of the
+        // directory state that a failed command must leave alone (created here so that the supervisor's own ambient
+        // copies do not appear as changes)
+        for suffix in [".tmp", ".part"] {
+            let _ = std::fs::write(dir.join(format!("{}{}", out_name, suffix)), b"stale sibling left by an earlier interrupted run\n");
+        }
+        let snap_before = dir_snapshot(&dir);
         let before = std::fs::metadata(&out).ok().map(|m| (m.ino(), m.len()));
         let before_bytes = std::fs::read(&out).ok();
         let a: Vec<&str> = case.args.iter().map(|x| if x == "OUT" { out_name } else { x.as_str() }).collect();
@@ -224,10 +281,34 @@ pub fn run(ctx: &Ctx) {
         ctx.eval();
         let after_bytes = std::fs::read(&out).ok();
         let after = std::fs::metadata(&out).ok().map(|m| (m.ino(), m.len()));
-        let prior_state = if before_bytes.is_none() { "absent" } else if before_bytes.as_ref().unwrap().len() > 1000 { "present, 400 kB" } else { "present" };
+        let snap_after = dir_snapshot(&dir);
+        // what changed anywhere in the run directory (the output path's own entry is judged separately for later-chunk failures)
+        let changed: Vec<String> = {
+            let mut v = Vec::new();
+            for (k, a) in &snap_after {
+                match snap_before.get(k) {
+                    None => v.push(format!("created: {} ({})", k, a.split(":ino").next().unwrap_or(a))),
+                    Some(b) if b != a => v.push(format!("changed: {} ({} -> {})", k, b.split(":ino").next().unwrap_or(b), a.split(":ino").next().unwrap_or(a))),
+                    _ => {}
+                }
+            }
+            for k in snap_before.keys() {
+                if !snap_after.contains_key(k) {
+                    v.push(format!("removed: {}", k));
+                }
+            }
+            v
+        };
+        let prior_state = match state {
+            3 if !uses_out_as_input => "dangling symbolic link",
+            4 if !uses_out_as_input => "symbolic link to a file",
+            _ if before_bytes.is_none() => "absent",
+            _ if before_bytes.as_ref().unwrap().len() > 1000 => "present, 400 kB",
+            _ => "present",
+        };
         let detail = || {
             json!({"command": cmd.describe(), "cause": case.cause, "prior_state": prior_state, "exit": o.exit.describe(), "stderr": o.stderr_s(),
-                   "output_before": before_bytes.as_ref().map(|b| hex_short(b, 40)), "output_after": after_bytes.as_ref().map(|b| hex_short(b, 40)), "output_after_len": after_bytes.as_ref().map(|b| b.len())})
+                   "output_before": before_bytes.as_ref().map(|b| hex_short(b, 40)), "output_after": after_bytes.as_ref().map(|b| hex_short(b, 40)), "output_after_len": after_bytes.as_ref().map(|b| b.len()), "directory_changes": changed})
         };
         let cause_key: String = case.cause.split(|c| c == ':' || c == '(' || c == ',').next().unwrap_or("").trim().replace(' ', "-");
         let sigbase = format!("C13:{}:{}", case.command.replace(' ', "-"), cause_key);
@@ -236,8 +317,14 @@ pub fn run(ctx: &Ctx) {
         } else if o.exit != Exit::Code(1) {
             ctx.violation(&format!("{}:exit-status-{}", sigbase, o.exit.describe().replace(' ', "-")), detail());
         } else if let Some(prefix) = &case.later_chunk_prefix {
+            // apart from the output path (and, behind a link, the file it points to) nothing in the directory may change
+            let others: Vec<&String> = changed.iter().filter(|c| !(c.contains(&format!(": {} ", out_name)) || c.ends_with(&format!(": {}", out_name)) || c.contains(": link-target"))).collect();
             if after_bytes.as_deref() != Some(&prefix[..]) {
                 ctx.violation(&format!("{}:output-is-not-exactly-the-authenticated-prefix", sigbase), detail());
+            } else if !others.is_empty() {
+                ctx.violation(&format!("{}:later-chunk-failure-changed-other-files", sigbase), detail());
+            } else if state >= 3 && !std::fs::symlink_metadata(&out).map(|m| m.file_type().is_symlink()).unwrap_or(false) {
+                ctx.violation(&format!("{}:symbolic-link-at-the-output-path-replaced", sigbase), detail());
             } else {
                 ctx.seen("later-chunk failure: output holds exactly the authenticated prefix, exit 1");
                 ctx.distinct(&format!("{}|{}|{}|{}", case.command, case.cause, prior_state, out_name));
@@ -251,6 +338,9 @@ pub fn run(ctx: &Ctx) {
             ctx.violation(&format!("{}:existing-output-file-clobbered-by-a-failed-command", sigbase), detail());
         } else if before.map(|b| b.0) != after.map(|a| a.0) {
             ctx.violation(&format!("{}:existing-output-file-replaced-by-a-failed-command", sigbase), detail());
+        } else if !changed.is_empty() {
+            // e.g. the target of a dangling link created, the link itself removed, a stray temporary file left behind
+            ctx.violation(&format!("{}:failed-command-created-removed-or-changed-a-file:{}", sigbase, prior_state.replace(' ', "-")), detail());
         } else {
             ctx.seen(&format!("{}: failed before any authenticated output, path untouched ({})", case.command, prior_state));
             ctx.distinct(&format!("{}|{}|{}|{}", case.command, case.cause, prior_state, out_name));
